@@ -1,38 +1,283 @@
-//! C18 probe (temporary)
+//! C18: names referenced from other tables exist and say what the source says.
+//!
+//! Three streams, all seeded from one `Rng`:
+//!  A. `fontir::ir::NameBuilder` (public) on generated `add` sequences: the fallback chain for
+//!     family / style / version / unique id / full / PostScript names;
+//!  B. `fontir::ir::StaticMetadata::new` (public) on generated name maps, axes and instances: the
+//!     name-id registration. The input HashMap's iteration order is observed and handed to the model;
+//!  C. whole fonts compiled in-process from generated designspace + UFO sources (fontinfo naming
+//!     fields, axis label names, instances, names from FEA: featureNames, cvParameters, size,
+//!     STAT, name table), decoded with read-fonts (name, fvar, STAT, GSUB/GPOS feature params).
+//! For every case the property predicate is evaluated directly on the implementation's output
+//! (violations carry a key naming the failure class) and a Gallina term compares the Coq model
+//! (FV.C18.Model) with it.
+use fontdrasil::coords::{CoordConverter, NormalizedCoord, NormalizedLocation, UserCoord};
+use fontdrasil::types::{Axis, Tag};
+use fontir::ir::{NameBuilder, NameKey, NamedInstance, StaticMetadata};
 use serde_json::json;
-use std::collections::{BTreeMap, BTreeSet};
-use vh::srcgen::{compile_path, quiet_panics, scratch_dir, AxisSrc, Design, GlyphSrc, InstanceSrc, Master, Outcome};
+use std::collections::{BTreeMap, BTreeSet, HashMap, HashSet};
+use std::str::FromStr;
+use vh::srcgen::{compile_path, quiet_panics, scratch_dir, xml_escape, AxisSrc, Design, GlyphSrc, InstanceSrc, Master, Outcome};
 use vh::*;
 use write_fonts::read::{FontRef, TableProvider};
+use write_fonts::types::NameId;
 
+// ---------------------------------------------------------------------------------------------
+// Gallina printers
+// ---------------------------------------------------------------------------------------------
+fn cs(s: &str) -> String {
+    coq_str(s)
+}
+fn c_names(v: &[(u16, u16, String)]) -> String {
+    coq_list(v, |(id, enc, s)| format!("(({}, {}), {})", coq_n(*id as u64), coq_n(*enc as u64), cs(s)))
+}
+fn c_frecs(v: &[(u16, u16, u16, u16, String)]) -> String {
+    // decoded order is (id, platform, encoding, language, string); the model wants ((p, e, l, id), s)
+    coq_list(v, |(id, p, e, l, s)| format!("(({}, {}, {}, {}), {})", coq_n(*p as u64), coq_n(*e as u64), coq_n(*l as u64), coq_n(*id as u64), cs(s)))
+}
+fn c_nlist(v: &[u16]) -> String {
+    coq_list(v, |x| coq_n(*x as u64))
+}
+
+// ---------------------------------------------------------------------------------------------
+// Source description for whole fonts
+// ---------------------------------------------------------------------------------------------
 #[derive(Clone, Debug, Default)]
 struct AxisCfg {
     name: String,
     tag: String,
     label: Option<String>,
-    min: f64,
-    def: f64,
-    max: f64,
+    min: i64,
+    def: i64,
+    max: i64,
+}
+impl AxisCfg {
+    /// fontdrasil Axis::ui_label_name
+    fn ui_label(&self) -> String {
+        if let Some(l) = &self.label {
+            return l.clone();
+        }
+        match self.name.as_str() {
+            "weight" => "Weight".into(),
+            "width" => "Width".into(),
+            "slant" => "Slant".into(),
+            "optical" => "Optical Size".into(),
+            "italic" => "Italic".into(),
+            n => n.into(),
+        }
+    }
+    fn is_point(&self) -> bool {
+        self.min == self.def && self.max == self.def
+    }
 }
 #[derive(Clone, Debug, Default)]
 struct InstCfg {
     style: String,
     ps: Option<String>,
-    loc: Vec<f64>,
+    loc: Vec<i64>,
+}
+/// one FEA name statement: (platform, encoding, language, text)
+type Spec = (u16, u16, u16, String);
+#[derive(Clone, Debug)]
+enum Elided {
+    Rec(Vec<Spec>),
+    Id(u16),
+}
+#[derive(Clone, Debug, Default)]
+struct CvCfg {
+    label: Option<Vec<Spec>>,
+    tooltip: Option<Vec<Spec>>,
+    sample: Option<Vec<Spec>>,
+    params: Vec<Vec<Spec>>,
+}
+#[derive(Clone, Debug, Default)]
+struct StatCfg {
+    elided: Option<Elided>,
+    /// (tag, names, values: (location value, names))
+    axes: Vec<(String, Vec<Spec>, Vec<(i64, Vec<Spec>)>)>,
+}
+#[derive(Clone, Debug, Default)]
+struct FeaCfg {
+    explicit: Vec<(u16, Spec)>,
+    stat: Option<StatCfg>,
+    size: Option<Vec<Spec>>,
+    ss: BTreeMap<String, Vec<Spec>>,
+    cv: BTreeMap<String, CvCfg>,
 }
 #[derive(Clone, Debug, Default)]
 struct Cfg {
     family: String,
     style: String,
-    /// extra fontinfo entries of the default master: (key, raw plist value)
-    fontinfo: Vec<(String, String)>,
+    /// string-valued fontinfo fields that feed the name table: (fontinfo key, value)
+    info: Vec<(String, String)>,
+    version_major: Option<i64>,
+    version_minor: Option<i64>,
+    vendor: Option<String>,
+    /// openTypeNameRecords: (name id, string)
+    records: Vec<(u16, String)>,
     axes: Vec<AxisCfg>,
     instances: Vec<InstCfg>,
-    fea: Option<String>,
+    fea: Option<FeaCfg>,
 }
 
-fn pstr(s: &str) -> String {
-    format!("<string>{}</string>", vh::srcgen::xml_escape(s))
+fn cfg_json(c: &Cfg) -> serde_json::Value {
+    json!({
+        "family": c.family, "style": c.style, "fontinfo": c.info, "versionMajor": c.version_major,
+        "versionMinor": c.version_minor, "vendor": c.vendor, "openTypeNameRecords": c.records,
+        "axes": c.axes.iter().map(|a| json!({"name": a.name, "tag": a.tag, "label": a.label, "min": a.min, "default": a.def, "max": a.max})).collect::<Vec<_>>(),
+        "instances": c.instances.iter().map(|i| json!({"stylename": i.style, "postscriptfontname": i.ps, "location": i.loc})).collect::<Vec<_>>(),
+        "features": c.fea.as_ref().map(fea_text),
+    })
+}
+
+fn spec_syntax(s: &Spec) -> String {
+    let (p, e, l, t) = s;
+    if (*p, *e, *l) == (3, 1, 0x409) {
+        format!("\"{t}\"")
+    } else if (*p, *e, *l) == (1, 0, 0) {
+        format!("1 \"{t}\"")
+    } else {
+        format!("{p} {e} {l} \"{t}\"")
+    }
+}
+fn names_block(v: &[Spec], kw: &str) -> String {
+    v.iter().map(|s| format!("{kw} {};", spec_syntax(s))).collect::<Vec<_>>().join(" ")
+}
+
+fn fea_text(f: &FeaCfg) -> String {
+    let mut s = String::new();
+    // features first, tables after: the allocation order does not depend on the file order
+    for (tag, names) in &f.ss {
+        s.push_str(&format!("feature {tag} {{ featureNames {{ {} }}; sub a by a.alt; }} {tag};\n", names_block(names, "name")));
+    }
+    for (tag, cv) in &f.cv {
+        let mut p = String::new();
+        if let Some(n) = &cv.label {
+            p.push_str(&format!("FeatUILabelNameID {{ {} }}; ", names_block(n, "name")));
+        }
+        if let Some(n) = &cv.tooltip {
+            p.push_str(&format!("FeatUITooltipTextNameID {{ {} }}; ", names_block(n, "name")));
+        }
+        if let Some(n) = &cv.sample {
+            p.push_str(&format!("SampleTextNameID {{ {} }}; ", names_block(n, "name")));
+        }
+        for n in &cv.params {
+            p.push_str(&format!("ParamUILabelNameID {{ {} }}; ", names_block(n, "name")));
+        }
+        s.push_str(&format!("feature {tag} {{ cvParameters {{ {p}Character 0x61; }}; sub a by a.alt; }} {tag};\n"));
+    }
+    if let Some(n) = &f.size {
+        s.push_str(&format!("feature size {{ parameters 10.0 3 80 139; {} }} size;\n", names_block(n, "sizemenuname")));
+    }
+    if let Some(st) = &f.stat {
+        s.push_str("table STAT {\n");
+        match &st.elided {
+            Some(Elided::Rec(n)) => s.push_str(&format!("  ElidedFallbackName {{ {} }};\n", names_block(n, "name"))),
+            Some(Elided::Id(i)) => s.push_str(&format!("  ElidedFallbackNameID {i};\n")),
+            None => {}
+        }
+        for (k, (tag, names, _)) in st.axes.iter().enumerate() {
+            s.push_str(&format!("  DesignAxis {tag} {k} {{ {} }};\n", names_block(names, "name")));
+        }
+        for (tag, _, values) in &st.axes {
+            for (v, names) in values {
+                s.push_str(&format!("  AxisValue {{ location {tag} {v}; {} }};\n", names_block(names, "name")));
+            }
+        }
+        s.push_str("} STAT;\n");
+    }
+    if !f.explicit.is_empty() {
+        s.push_str("table name {\n");
+        for (id, sp) in &f.explicit {
+            s.push_str(&format!("  nameid {id} {};\n", spec_syntax(sp)));
+        }
+        s.push_str("} name;\n");
+    }
+    s
+}
+
+/// the allocation program of the model: (kind, specs) in the order fea-rs allocates ids
+fn fea_prog(f: &FeaCfg) -> Vec<(String, Vec<Spec>)> {
+    let mut p: Vec<(String, Vec<Spec>)> = Vec::new();
+    for (id, sp) in &f.explicit {
+        p.push((format!("GExplicit {}", coq_n(*id as u64)), vec![sp.clone()]));
+    }
+    if let Some(st) = &f.stat {
+        match &st.elided {
+            Some(Elided::Rec(n)) => p.push(("GElidedRec".into(), n.clone())),
+            Some(Elided::Id(i)) => p.push((format!("GElidedId {}", coq_n(*i as u64)), vec![])),
+            None => {}
+        }
+        for (_, names, values) in &st.axes {
+            p.push(("GAdj".into(), names.clone()));
+            for (_, vn) in values {
+                p.push(("GAdj".into(), vn.clone()));
+            }
+        }
+    }
+    if let Some(n) = &f.size {
+        p.push(("GSize".into(), n.clone()));
+    }
+    for names in f.ss.values() {
+        p.push(("GAdj".into(), names.clone()));
+    }
+    for cv in f.cv.values() {
+        for n in [&cv.label, &cv.tooltip, &cv.sample].into_iter().flatten() {
+            p.push(("GAdj".into(), n.clone()));
+        }
+        for (k, n) in cv.params.iter().enumerate() {
+            p.push((if k == 0 { "GAdj".into() } else { "GAnon".into() }, n.clone()));
+        }
+    }
+    p
+}
+fn c_prog(p: &[(String, Vec<Spec>)]) -> String {
+    coq_list(p, |(k, specs)| {
+        format!("({}, {})", k, coq_list(specs, |(p, e, l, t)| format!("(({}, {}, {}), {})", coq_n(*p as u64), coq_n(*e as u64), coq_n(*l as u64), cs(t))))
+    })
+}
+
+/// the `add` calls ufo2fontir's names() performs for this fontinfo, in its order
+fn ufo_adds(c: &Cfg) -> Vec<(u16, String)> {
+    let get = |k: &str| c.info.iter().find(|(kk, _)| kk == k).map(|(_, v)| v.clone());
+    let mut a: Vec<(u16, String)> = Vec::new();
+    let mut add = |id: u16, v: Option<String>| {
+        if let Some(v) = v {
+            a.push((id, v));
+        }
+    };
+    add(0, get("copyright"));
+    add(1, get("styleMapFamilyName"));
+    add(
+        2,
+        get("styleMapStyleName").map(|s| match s.as_str() {
+            "regular" => "Regular".to_string(),
+            "italic" => "Italic".to_string(),
+            "bold" => "Bold".to_string(),
+            _ => "Bold Italic".to_string(),
+        }),
+    );
+    add(3, get("openTypeNameUniqueID"));
+    add(5, get("openTypeNameVersion"));
+    add(6, get("postscriptFontName"));
+    add(7, get("trademark"));
+    add(8, get("openTypeNameManufacturer"));
+    add(9, get("openTypeNameDesigner"));
+    add(10, get("openTypeNameDescription"));
+    add(11, get("openTypeNameManufacturerURL"));
+    add(12, get("openTypeNameDesignerURL"));
+    add(13, get("openTypeNameLicense"));
+    add(14, get("openTypeNameLicenseURL"));
+    add(16, get("openTypeNamePreferredFamilyName").or(Some(c.family.clone())));
+    add(17, get("openTypeNamePreferredSubfamilyName").or(Some(c.style.clone())));
+    add(18, get("openTypeNameCompatibleFullName"));
+    add(19, get("openTypeNameSampleText"));
+    add(21, get("openTypeNameWWSFamilyName"));
+    add(22, get("openTypeNameWWSSubfamilyName"));
+    for (id, s) in &c.records {
+        a.push((*id, s.clone()));
+    }
+    a
 }
 
 fn glyphs(shift: f64) -> Vec<GlyphSrc> {
@@ -40,8 +285,11 @@ fn glyphs(shift: f64) -> Vec<GlyphSrc> {
         GlyphSrc::new(".notdef", 500.0).rect(50.0, 0.0, 450.0 + shift, 700.0),
         GlyphSrc::new("a", 500.0 + shift).uni(0x61).rect(40.0, 0.0, 400.0 + shift, 500.0),
         GlyphSrc::new("a.alt", 520.0 + shift).rect(40.0, 0.0, 420.0 + shift, 500.0),
-        GlyphSrc::new("b", 520.0 + shift).uni(0x62).rect(40.0, 0.0, 420.0 + shift, 700.0),
     ]
+}
+
+fn pstr(s: &str) -> String {
+    format!("<string>{}</string>", xml_escape(s))
 }
 
 fn build_design(c: &Cfg) -> Design {
@@ -50,47 +298,62 @@ fn build_design(c: &Cfg) -> Design {
         d.axes.push(AxisSrc {
             name: a.name.clone(),
             tag: a.tag.clone(),
-            min: a.min,
-            default: a.def,
-            max: a.max,
-            map: vec![(a.min, a.min), (a.def, a.def), (a.max, a.max)],
+            min: a.min as f64,
+            default: a.def as f64,
+            max: a.max as f64,
+            map: vec![(a.min as f64, a.min as f64), (a.def as f64, a.def as f64), (a.max as f64, a.max as f64)],
             hidden: false,
         });
     }
-    let defloc: Vec<(String, f64)> = c.axes.iter().map(|a| (a.name.clone(), a.def)).collect();
+    let mut fontinfo: Vec<(String, String)> = c.info.iter().map(|(k, v)| (k.clone(), pstr(v))).collect();
+    if let Some(v) = c.version_major {
+        fontinfo.push(("versionMajor".into(), format!("<integer>{v}</integer>")));
+    }
+    if let Some(v) = c.version_minor {
+        fontinfo.push(("versionMinor".into(), format!("<integer>{v}</integer>")));
+    }
+    if let Some(v) = &c.vendor {
+        fontinfo.push(("openTypeOS2VendorID".into(), pstr(v)));
+    }
+    if !c.records.is_empty() {
+        let mut s = String::from("<array>");
+        for (id, t) in &c.records {
+            s.push_str(&format!("<dict><key>nameID</key><integer>{id}</integer><key>platformID</key><integer>3</integer><key>encodingID</key><integer>1</integer><key>languageID</key><integer>1033</integer><key>string</key>{}</dict>", pstr(t)));
+        }
+        s.push_str("</array>");
+        fontinfo.push(("openTypeNameRecords".into(), s));
+    }
+    let defloc: Vec<(String, f64)> = c.axes.iter().map(|a| (a.name.clone(), a.def as f64)).collect();
     d.masters.push(Master {
         name: "M0".into(),
         style: c.style.clone(),
         location: defloc.clone(),
         glyphs: glyphs(0.0),
-        fontinfo: c.fontinfo.clone(),
-        features: c.fea.clone(),
+        fontinfo,
+        features: c.fea.as_ref().map(fea_text),
         ..Default::default()
     });
     for (i, a) in c.axes.iter().enumerate() {
+        if a.is_point() {
+            continue;
+        }
         let mut loc = defloc.clone();
-        loc[i].1 = if a.max != a.def { a.max } else { a.min };
-        d.masters.push(Master {
-            name: format!("M{}", i + 1),
-            style: format!("Master{}", i + 1),
-            location: loc,
-            glyphs: glyphs(40.0 * (i as f64 + 1.0)),
-            ..Default::default()
-        });
+        loc[i].1 = if a.max != a.def { a.max as f64 } else { a.min as f64 };
+        d.masters.push(Master { name: format!("M{}", i + 1), style: format!("Master{}", i + 1), location: loc, glyphs: glyphs(40.0 * (i as f64 + 1.0)), ..Default::default() });
     }
     for i in &c.instances {
         d.instances.push(InstanceSrc {
             family: c.family.clone(),
             style: i.style.clone(),
             postscript: i.ps.clone(),
-            location: c.axes.iter().zip(i.loc.iter()).map(|(a, v)| (a.name.clone(), *v)).collect(),
+            location: c.axes.iter().zip(i.loc.iter()).map(|(a, v)| (a.name.clone(), *v as f64)).collect(),
         });
     }
     d
 }
 
-/// Write the design; axis label names are patched into the designspace document (srcgen has no
-/// field for them).
+/// Write the design. Axis label names are patched into the designspace document (srcgen has no
+/// field for them): every axis is written with a map, so it has a closing tag to insert before.
 fn write_design(c: &Cfg, dir: &std::path::Path) -> std::path::PathBuf {
     let d = build_design(c);
     if c.axes.is_empty() {
@@ -100,14 +363,15 @@ fn write_design(c: &Cfg, dir: &std::path::Path) -> std::path::PathBuf {
     let mut xml = std::fs::read_to_string(&p).unwrap();
     let mut out = String::new();
     let mut k = 0usize;
-    while let Some(pos) = xml.find("    </axis>\n") {
+    let close = "    </axis>\n";
+    while let Some(pos) = xml.find(close) {
         out.push_str(&xml[..pos]);
         if let Some(l) = c.axes.get(k).and_then(|a| a.label.as_ref()) {
-            out.push_str(&format!("      <labelname xml:lang=\"en\">{}</labelname>\n", vh::srcgen::xml_escape(l)));
-            out.push_str(&format!("      <labelname xml:lang=\"de\">{}-de</labelname>\n", vh::srcgen::xml_escape(l)));
+            out.push_str(&format!("      <labelname xml:lang=\"de\">{}-de</labelname>\n", xml_escape(l)));
+            out.push_str(&format!("      <labelname xml:lang=\"en\">{}</labelname>\n", xml_escape(l)));
         }
-        out.push_str("    </axis>\n");
-        xml = xml[pos + "    </axis>\n".len()..].to_string();
+        out.push_str(close);
+        xml = xml[pos + close.len()..].to_string();
         k += 1;
     }
     out.push_str(&xml);
@@ -115,16 +379,19 @@ fn write_design(c: &Cfg, dir: &std::path::Path) -> std::path::PathBuf {
     p
 }
 
-#[derive(Debug, Default, Clone)]
+// ---------------------------------------------------------------------------------------------
+// Decoding
+// ---------------------------------------------------------------------------------------------
+#[derive(Debug, Default, Clone, PartialEq, Eq, PartialOrd, Ord)]
 struct Decoded {
     names: Vec<(u16, u16, u16, u16, String)>, // id, platform, encoding, language, string
     fvar_axes: Vec<(String, u16)>,
-    fvar_inst: Vec<(u16, Option<u16>, Vec<f64>)>,
-    stat_axes: Vec<(String, u16)>,
-    stat_values: Vec<u16>,
-    stat_elided: Option<u16>,
+    fvar_inst: Vec<(u16, Option<u16>, Vec<i64>)>,
     has_stat: bool,
-    feat: Vec<(String, String, Vec<u16>)>, // (table/tag, kind, ids)
+    stat_axes: Vec<(String, u16)>,
+    stat_values: Vec<(u16, u16)>, // (axis index, value name id)
+    stat_elided: Option<u16>,
+    feat: Vec<(String, String, Vec<u16>)>, // (tag, kind, ids)
 }
 
 fn decode(bytes: &[u8]) -> Result<Decoded, String> {
@@ -145,7 +412,7 @@ fn decode(bytes: &[u8]) -> Result<Decoded, String> {
             d.fvar_inst.push((
                 i.subfamily_name_id.to_u16(),
                 i.post_script_name_id.map(|x| x.to_u16()),
-                i.coordinates.iter().map(|c| c.get().to_f64()).collect(),
+                i.coordinates.iter().map(|c| c.get().to_f64().round() as i64).collect(),
             ));
         }
     }
@@ -157,41 +424,47 @@ fn decode(bytes: &[u8]) -> Result<Decoded, String> {
         if let Some(v) = stat.offset_to_axis_values() {
             let v = v.map_err(|e| e.to_string())?;
             for av in v.axis_values().iter() {
+                use write_fonts::read::tables::stat::AxisValue as AV;
                 let av = av.map_err(|e| e.to_string())?;
-                d.stat_values.push(av.value_name_id().to_u16());
+                let (ix, id) = match &av {
+                    AV::Format1(t) => (t.axis_index(), t.value_name_id()),
+                    AV::Format2(t) => (t.axis_index(), t.value_name_id()),
+                    AV::Format3(t) => (t.axis_index(), t.value_name_id()),
+                    AV::Format4(t) => (0xFFFF, t.value_name_id()),
+                };
+                d.stat_values.push((ix, id.to_u16()));
             }
         }
         d.stat_elided = stat.elided_fallback_name_id().map(|x| x.to_u16());
     }
     use write_fonts::read::tables::layout::FeatureParams as FP;
-    let mut feats = |which: &str, fl: write_fonts::read::tables::layout::FeatureList| -> Result<(), String> {
+    let mut feats = |fl: write_fonts::read::tables::layout::FeatureList| -> Result<(), String> {
         for rec in fl.feature_records() {
             let f = rec.feature(fl.offset_data()).map_err(|e| e.to_string())?;
             if let Some(p) = f.feature_params() {
                 let p = p.map_err(|e| format!("feature params {}: {e}", rec.feature_tag()))?;
-                let tag = format!("{which}/{}", rec.feature_tag());
-                match p {
-                    FP::StylisticSet(s) => d.feat.push((tag, "ss".into(), vec![s.ui_name_id().to_u16()])),
-                    FP::Size(s) => d.feat.push((tag, "size".into(), vec![s.name_entry()])),
+                let tag = rec.feature_tag().to_string();
+                let entry = match p {
+                    FP::StylisticSet(s) => (tag, "ss".to_string(), vec![s.ui_name_id().to_u16()]),
+                    FP::Size(s) => (tag, "size".to_string(), vec![s.name_entry()]),
                     FP::CharacterVariant(c) => {
-                        let mut ids = vec![c.feat_ui_label_name_id().to_u16(), c.feat_ui_tooltip_text_name_id().to_u16(), c.sample_text_name_id().to_u16()];
-                        let first = c.first_param_ui_label_name_id().to_u16();
-                        for k in 0..c.num_named_parameters() {
-                            ids.push(first + k);
-                        }
-                        d.feat.push((tag, "cv".into(), ids));
+                        (tag, "cv".to_string(), vec![c.feat_ui_label_name_id().to_u16(), c.feat_ui_tooltip_text_name_id().to_u16(), c.sample_text_name_id().to_u16(), c.first_param_ui_label_name_id().to_u16(), c.num_named_parameters()])
                     }
+                };
+                if !d.feat.contains(&entry) {
+                    d.feat.push(entry);
                 }
             }
         }
         Ok(())
     };
     if let Ok(g) = font.gsub() {
-        feats("GSUB", g.feature_list().map_err(|e| e.to_string())?)?;
+        feats(g.feature_list().map_err(|e| e.to_string())?)?;
     }
     if let Ok(g) = font.gpos() {
-        feats("GPOS", g.feature_list().map_err(|e| e.to_string())?)?;
+        feats(g.feature_list().map_err(|e| e.to_string())?)?;
     }
+    d.feat.sort();
     Ok(d)
 }
 
@@ -201,76 +474,898 @@ fn compile_cfg(c: &Cfg) -> Outcome {
     compile_path(&p, None, None)
 }
 
-fn show(c: &Cfg, label: &str, reps: usize) {
-    println!("==== {label}");
-    let mut seen = BTreeSet::new();
-    for _ in 0..reps {
-        match compile_cfg(c) {
-            Outcome::Font(b) => match decode(&b) {
-                Ok(d) => {
-                    let s = format!("{:?}", d);
-                    if seen.insert(s) {
-                        for n in &d.names {
-                            println!("  name {:?}", n);
-                        }
-                        println!("  fvar axes {:?}\n  fvar inst {:?}\n  stat {:?} {:?} elided {:?} has={}\n  feat {:?}", d.fvar_axes, d.fvar_inst, d.stat_axes, d.stat_values, d.stat_elided, d.has_stat, d.feat);
-                        println!("  ----");
-                    }
-                }
-                Err(e) => println!("  decode error {e}"),
-            },
-            Outcome::Error(e) => {
-                if seen.insert(format!("E{e}")) {
-                    println!("  ERROR {e}")
-                }
+// ---------------------------------------------------------------------------------------------
+// String pools
+// ---------------------------------------------------------------------------------------------
+const FAMILIES: &[&str] = &["Fam", "Test Sans", "Regular", "Bold", "Weight", "Fam Light", "\u{dc}n\u{ef} Sans", "A\u{1D400}", "Fam [1]"];
+const STYLES: &[&str] = &["Regular", "Bold", "Italic", "Bold Italic", "Light", "Condensed Light", "regular", "BOLD", "Semi Bold Italic", "Light  Italic", "Fam"];
+const INST_NAMES: &[&str] = &["Regular", "Bold", "Light", "Italic", "Fam", "Weight", "Medium", "Fam-Regular", "Fam Regular", "Black", "Test Sans"];
+const LABELS: &[&str] = &["Weight", "Gewicht", "Bold", "Regular", "Fam", "Width", "Medium"];
+const VERSIONS: &[&str] = &["Version 2.1", "2.100", "Version 1.0;fontc 0.0.1", "Version 3.0; custom note", "", "Version Version 4", ";fontc 9.9", "v1"];
+const FEA_TEXTS: &[&str] = &["Alt a", "Regular", "Bold", "Weight", "Fam", "Text", "Single storey", "Medium"];
+
+fn pick_s(rng: &mut Rng, pool: &[&str]) -> String {
+    (*rng.pick(pool)).to_string()
+}
+
+// ---------------------------------------------------------------------------------------------
+// Stream A: NameBuilder
+// ---------------------------------------------------------------------------------------------
+struct Tally {
+    by_kind: BTreeMap<String, usize>,
+    viol: BTreeMap<String, usize>,
+    fonts_compiled: usize,
+    font_builds: usize,
+}
+fn viol(t: &mut Tally, key: &str, desc: String, extra: serde_json::Value) {
+    let n = t.viol.entry(key.to_string()).or_insert(0);
+    *n += 1;
+    if *n <= 3 {
+        emit_violation(key, desc, extra);
+    }
+}
+
+fn is_ribbi(s: &str) -> bool {
+    matches!(s.to_lowercase().as_str(), "regular" | "italic" | "bold" | "bold italic")
+}
+
+fn gen_adds(rng: &mut Rng) -> (Vec<(u16, String)>, &'static str) {
+    let mut adds: Vec<(u16, String)> = Vec::new();
+    let weird: &[&str] = &["", "Line\r\nBreak", "Old\rMac", "  Spaced   Out ", "\u{dc}n\u{ef}", "A\u{1D400}B", "Br[ack]et(s)", "Tab\tbed", "\u{212A}elvin", "New Font"];
+    let val = |rng: &mut Rng, pool: &[&str]| -> String { if rng.chance(1, 6) { pick_s(rng, weird) } else { pick_s(rng, pool) } };
+    if rng.chance(2, 5) {
+        adds.push((1, val(rng, FAMILIES)));
+    }
+    if rng.chance(2, 5) {
+        adds.push((2, val(rng, STYLES)));
+    }
+    if rng.chance(1, 4) {
+        adds.push((3, val(rng, &["1.000;ABCD;Fam-Regular", "unique"])));
+    }
+    if rng.chance(1, 5) {
+        adds.push((4, val(rng, &["Fam Full", "Fam Regular"])));
+    }
+    if rng.chance(2, 5) {
+        adds.push((5, val(rng, VERSIONS)));
+    }
+    if rng.chance(1, 4) {
+        adds.push((6, val(rng, &["Fam-Regular", "Custom PS"])));
+    }
+    if rng.chance(4, 5) {
+        adds.push((16, val(rng, FAMILIES)));
+    }
+    if rng.chance(4, 5) {
+        adds.push((17, val(rng, STYLES)));
+    }
+    for id in [0u16, 7, 9, 13, 18, 21, 22, 25, 256, 300] {
+        if rng.chance(1, 8) {
+            adds.push((id, val(rng, &["Copyright 2026", "Designer", "OFL", "Fam"])));
+        }
+    }
+    let mut kind = "distinct-ids";
+    if rng.chance(1, 10) && !adds.is_empty() {
+        // the same id twice (UFO openTypeNameRecords can do this)
+        let (id, _) = rng.pick(&adds).clone();
+        adds.push((id, val(rng, FAMILIES)));
+        kind = "repeated-id";
+    }
+    rng.shuffle(&mut adds);
+    (adds, kind)
+}
+
+fn stream_namebuilder(rng: &mut Rng, n: usize, id: &mut usize, t: &mut Tally) {
+    for _ in 0..n {
+        let (adds, kind) = gen_adds(rng);
+        let major: i32 = *rng.pick(&[0, 0, 1, 2, 12, -1, 2147483647]);
+        let minor: u32 = *rng.pick(&[0, 0, 5, 50, 500, 5000, 7]);
+        let vendor = pick_s(rng, &["NONE", "ABCD", "", "A;B"]);
+        let src = json!({"adds": adds, "major": major, "minor": minor, "vendor": vendor});
+        let adds2 = adds.clone();
+        let vendor2 = vendor.clone();
+        let r = std::panic::catch_unwind(move || {
+            let mut b = NameBuilder::default();
+            b.set_version(major, minor);
+            for (i, s) in &adds2 {
+                b.add(NameId::new(*i), s.clone());
             }
-            Outcome::Panic(e) => {
-                if seen.insert(format!("P{e}")) {
-                    println!("  PANIC {e}")
+            b.build(&vendor2)
+        });
+        let out: HashMap<NameKey, String> = match r {
+            Ok(o) => o,
+            Err(_) => {
+                viol(t, "namebuilder-panic", "NameBuilder::build panicked".into(), src);
+                continue;
+            }
+        };
+        let mut recs: Vec<(u16, u16, String)> = out.iter().map(|(k, v)| (k.name_id.to_u16(), k.encoding_id, v.clone())).collect();
+        recs.sort();
+        // ---- property predicate on the implementation's output
+        let supplied = |i: u16| adds.iter().rev().find(|(k, _)| *k == i).map(|(_, s)| s.clone());
+        for (k, _) in out.iter() {
+            if k.platform_id != 3 || k.lang_id != 0x409 {
+                viol(t, "name-key-platform", format!("record {:?} is not Windows / en-US", k), src.clone());
+            }
+        }
+        if recs.iter().any(|(_, _, s)| s.is_empty()) {
+            viol(t, "name-empty-record", "an empty string is emitted".into(), src.clone());
+        }
+        let mut ids: Vec<u16> = recs.iter().map(|r| r.0).collect();
+        let n_ids = ids.len();
+        ids.dedup();
+        if ids.len() != n_ids {
+            viol(t, "namebuilder-stale-record", format!("two records with the same name id and language (different encodings): {:?}", recs), src.clone());
+        }
+        // an explicitly blank family / style string blocks the fallbacks by design (ufo2ft #958):
+        // such degenerate sources are left to the model comparison
+        let degenerate = [1u16, 2, 16, 17].iter().any(|i| supplied(*i).map_or(false, |s| s.trim().is_empty()));
+        for i in [1u16, 2, 3, 4, 5] {
+            // 6 can legitimately be empty (no printable ASCII in family / style)
+            if !degenerate && supplied(i).as_deref() != Some("") && !recs.iter().any(|r| r.0 == i) {
+                viol(t, "name-mandatory-missing", format!("name id {i} is missing although the source did not blank it: {:?}", recs), src.clone());
+            }
+        }
+        if supplied(2).is_none() {
+            if let Some((_, _, s)) = recs.iter().find(|r| r.0 == 2) {
+                if !is_ribbi(s) {
+                    viol(t, "legacy-subfamily-not-ribbi", format!("derived legacy subfamily {:?} is not one of the four style names", s), src.clone());
                 }
             }
         }
+        for (_, enc, s) in &recs {
+            let want = if s.chars().all(|c| (c as u32) < 0xFFFF) { 1 } else { 10 };
+            if *enc != want {
+                viol(t, "name-encoding-wrong", format!("encoding {enc} for {:?}", s), src.clone());
+            }
+        }
+        // ---- model
+        let c_adds = coq_list(&adds, |(i, s)| format!("({}, {})", coq_n(*i as u64), cs(s)));
+        let coq = format!("same_names (nb_run {} {} {} {}) {}", c_adds, coq_z(major as i64), coq_n(minor as u64), cs(&vendor), c_names(&recs));
+        let show = format!("nb_run {} {} {} {}", c_adds, coq_z(major as i64), coq_n(minor as u64), cs(&vendor));
+        *t.by_kind.entry(format!("namebuilder:{kind}")).or_insert(0) += 1;
+        emit_case(*id, "namebuilder", coq, Some(show), !adds.is_empty(), format!("nb:{:?}{major}.{minor}{vendor}", adds), json!({"src": src, "impl": recs}));
+        *id += 1;
     }
-    println!("  distinct outcomes: {}", seen.len());
+}
+
+// ---------------------------------------------------------------------------------------------
+// Stream B: StaticMetadata::new
+// ---------------------------------------------------------------------------------------------
+fn c_axes(axes: &[AxisCfg]) -> String {
+    coq_list(axes, |a| format!("{{| a_label := {}; a_min := {}; a_def := {}; a_max := {} |}}", cs(&a.ui_label()), coq_z(a.min), coq_z(a.def), coq_z(a.max)))
+}
+fn c_insts(insts: &[InstCfg]) -> String {
+    coq_list(insts, |i| {
+        format!("{{| i_name := {}; i_ps := {}; i_loc := {} |}}", cs(&i.style), coq_opt(&i.ps, |p| cs(p)), coq_list(&i.loc, |z| coq_z(*z)))
+    })
+}
+
+fn gen_axes(rng: &mut Rng, n: usize, allow_point: bool) -> Vec<AxisCfg> {
+    let names = [("Weight", "wght"), ("Width", "wdth"), ("optical", "opsz"), ("Custom Axis", "CUST")];
+    let mut v = Vec::new();
+    for k in 0..n {
+        let (nm, tag) = names[k];
+        let nm = if k == 0 && rng.chance(1, 4) { "weight" } else { nm };
+        let (min, def, max) = if allow_point && rng.chance(1, 6) {
+            (100, 100, 100)
+        } else {
+            match rng.below(3) {
+                0 => (400, 400, 700),
+                1 => (100, 400, 900),
+                _ => (100, 700, 700),
+            }
+        };
+        v.push(AxisCfg { name: nm.into(), tag: tag.into(), label: if rng.chance(1, 3) { Some(pick_s(rng, LABELS)) } else { None }, min, def, max });
+    }
+    v
+}
+
+fn gen_insts(rng: &mut Rng, axes: &[AxisCfg], n: usize, extra_names: &[String]) -> Vec<InstCfg> {
+    let mut v = Vec::new();
+    for _ in 0..n {
+        let style = if !extra_names.is_empty() && rng.chance(1, 3) { rng.pick(extra_names).clone() } else { pick_s(rng, INST_NAMES) };
+        let ps = match rng.below(5) {
+            0 => Some(format!("Fam-{}", style.replace(' ', ""))),
+            1 => Some(pick_s(rng, &["Fam-Regular", "Regular", "Fam-Bold", "Weight"])),
+            _ => None,
+        };
+        let at_default = rng.chance(2, 5);
+        let loc = axes.iter().map(|a| if at_default { a.def } else { *rng.pick(&[a.min, a.def, a.max, (a.min + a.max) / 2]) }).collect();
+        v.push(InstCfg { style, ps, loc });
+    }
+    v
+}
+
+fn stream_alloc(rng: &mut Rng, n: usize, id: &mut usize, t: &mut Tally) {
+    for _ in 0..n {
+        // source names: reserved ids with strings that collide with labels / instance names
+        let mut src: Vec<(u16, String)> = vec![(1, pick_s(rng, FAMILIES)), (2, pick_s(rng, &["Regular", "Bold", "Italic", "Bold Italic"]))];
+        for i in [0u16, 3, 4, 5, 6, 9, 16, 17, 21, 25] {
+            if rng.chance(1, 3) {
+                src.push((i, if rng.chance(1, 2) { pick_s(rng, INST_NAMES) } else { pick_s(rng, FAMILIES) }));
+            }
+        }
+        if rng.chance(1, 8) {
+            for i in [256u16, 257, 300] {
+                if rng.chance(1, 2) {
+                    src.push((i, if rng.chance(1, 2) { pick_s(rng, LABELS) } else { "Source string".into() }));
+                }
+            }
+        }
+        let high = src.iter().any(|(i, _)| *i > 255);
+        let nax = if high { rng.range(0, 2) as usize } else { rng.range(0, 3) as usize };
+        let axes = gen_axes(rng, nax, true);
+        let extra: Vec<String> = src.iter().map(|(_, s)| s.clone()).collect();
+        let nin = if high { rng.range(0, 2) as usize } else { rng.range(0, 5) as usize };
+        let insts = gen_insts(rng, &axes, nin, &extra);
+        let names: HashMap<NameKey, String> = src.iter().map(|(i, s)| (NameKey::new(NameId::new(*i), s), s.clone())).collect();
+        // the iteration order StaticMetadata::new will see (a move does not rehash)
+        let order: Vec<(u16, u16, String)> = names.iter().map(|(k, v)| (k.name_id.to_u16(), k.encoding_id, v.clone())).collect();
+        let ir_axes: Vec<Axis> = axes
+            .iter()
+            .map(|a| {
+                let (mn, df, mx) = (UserCoord::new(a.min as f64), UserCoord::new(a.def as f64), UserCoord::new(a.max as f64));
+                Axis {
+                    name: a.name.clone(),
+                    tag: Tag::from_str(&a.tag).unwrap(),
+                    min: mn,
+                    default: df,
+                    max: mx,
+                    hidden: false,
+                    converter: CoordConverter::unmapped(mn, df, mx),
+                    localized_names: a.label.iter().map(|l| ("en".to_string(), l.clone())).chain([("fr".to_string(), "Graisse".to_string())]).collect(),
+                }
+            })
+            .collect();
+        let ir_insts: Vec<NamedInstance> = insts
+            .iter()
+            .map(|i| NamedInstance {
+                name: i.style.clone(),
+                postscript_name: i.ps.clone(),
+                location: axes.iter().zip(i.loc.iter()).map(|(a, v)| (Tag::from_str(&a.tag).unwrap(), UserCoord::new(*v as f64))).collect::<Vec<_>>().into(),
+            })
+            .collect();
+        let default_loc: NormalizedLocation = axes.iter().filter(|a| !a.is_point()).map(|a| (Tag::from_str(&a.tag).unwrap(), NormalizedCoord::new(0.0))).collect::<Vec<_>>().into();
+        let src_json = json!({"names_in_iteration_order": order, "axes": axes.iter().map(|a| json!({"label": a.ui_label(), "min": a.min, "default": a.def, "max": a.max})).collect::<Vec<_>>(),
+            "instances": insts.iter().map(|i| json!({"name": i.style, "ps": i.ps, "loc": i.loc})).collect::<Vec<_>>()});
+        let r = std::panic::catch_unwind(move || StaticMetadata::new(1000, names, ir_axes, ir_insts, HashSet::from([default_loc]), None, 0.0, None, false));
+        let sm = match r {
+            Ok(Ok(sm)) => sm,
+            Ok(Err(e)) => {
+                viol(t, "static-metadata-error", format!("StaticMetadata::new failed: {e}"), src_json);
+                continue;
+            }
+            Err(_) => {
+                viol(t, "static-metadata-panic", "StaticMetadata::new panicked".into(), src_json);
+                continue;
+            }
+        };
+        let mut out: Vec<(u16, u16, String)> = sm.names.iter().map(|(k, v)| (k.name_id.to_u16(), k.encoding_id, v.clone())).collect();
+        out.sort();
+        // ---- property predicate
+        let variable: Vec<&AxisCfg> = axes.iter().filter(|a| !a.is_point()).collect();
+        for (i, s) in &src {
+            if !out.iter().any(|(oi, _, os)| oi == i && os == s) {
+                viol(t, "source-name-id-collision", format!("source name id {i} = {:?} is not in the result (registration reused the id): {:?}", s, out), src_json.clone());
+            }
+        }
+        for a in &variable {
+            let l = a.ui_label();
+            if !out.iter().any(|(oi, _, os)| *oi >= 256 && *os == l) {
+                viol(t, if high { "source-name-id-collision" } else { "axis-label-unregistered" }, format!("axis label {:?} has no record with id >= 256: {:?}", l, out), src_json.clone());
+            }
+        }
+        if !variable.is_empty() {
+            for i in &insts {
+                if !out.iter().any(|(_, _, os)| *os == i.style) {
+                    viol(t, if high { "source-name-id-collision" } else { "instance-name-unregistered" }, format!("instance name {:?} has no record", i.style), src_json.clone());
+                }
+                if let Some(p) = &i.ps {
+                    if !out.iter().any(|(oi, _, os)| *oi >= 256 && os == p) {
+                        viol(t, if high { "source-name-id-collision" } else { "instance-psname-unregistered" }, format!("PostScript name {:?} has no record with id >= 256", p), src_json.clone());
+                    }
+                }
+            }
+        }
+        // ---- model
+        let rmap_size = variable.len() + insts.iter().map(|i| 1 + i.ps.is_some() as usize).sum::<usize>() + src.iter().filter(|(i, _)| *i > 255).count();
+        let kind = if high { "alloc:source-ids-above-255" } else if variable.is_empty() { "alloc:static" } else { "alloc:variable" };
+        *t.by_kind.entry(kind.to_string()).or_insert(0) += 1;
+        let coq = if high && rmap_size > 6 {
+            String::new()
+        } else {
+            format!("alloc_agrees {} {} {} {} {}", coq_bool(high), c_names(&order), c_axes(&axes), c_insts(&insts), c_names(&out))
+        };
+        let show = format!("extend {o} (alloc {o} {} {})", c_axes(&axes), c_insts(&insts), o = c_names(&order));
+        emit_case(*id, "alloc", coq, Some(show), !variable.is_empty(), format!("al:{:?}{:?}{:?}", order, axes, insts), json!({"src": src_json, "impl": out}));
+        *id += 1;
+    }
+}
+
+// ---------------------------------------------------------------------------------------------
+// Stream C: whole fonts
+// ---------------------------------------------------------------------------------------------
+fn gen_specs(rng: &mut Rng, allow_empty: bool) -> Vec<Spec> {
+    let mut v: Vec<Spec> = Vec::new();
+    let text = pick_s(rng, FEA_TEXTS);
+    if allow_empty && rng.chance(1, 12) {
+        v.push((3, 1, 0x409, String::new()));
+        return v;
+    }
+    v.push((3, 1, 0x409, text.clone()));
+    if rng.chance(1, 3) {
+        v.push((1, 0, 0, format!("{text} mac")));
+    }
+    if rng.chance(1, 5) {
+        v.push((3, 1, 0x407, format!("{text} de")));
+    }
+    v
+}
+
+fn gen_fea(rng: &mut Rng, axes: &[AxisCfg]) -> FeaCfg {
+    let mut f = FeaCfg::default();
+    if rng.chance(1, 3) {
+        // (feaLib refuses nameid 1-6, so sources that build with fontmake do not have them)
+        for id in [9u16, 300, 7, 256] {
+            if rng.chance(1, 3) {
+                f.explicit.push((id, (3, 1, 0x409, pick_s(rng, &["Designer", "Three hundred", "Fea Family", "Weight"]))));
+            }
+        }
+    }
+    for tag in ["ss01", "ss02"] {
+        if rng.chance(1, 2) {
+            f.ss.insert(tag.into(), gen_specs(rng, true));
+        }
+    }
+    if rng.chance(2, 5) {
+        let mut cv = CvCfg::default();
+        if rng.chance(3, 4) {
+            cv.label = Some(gen_specs(rng, false));
+        }
+        if rng.chance(1, 3) {
+            cv.tooltip = Some(gen_specs(rng, false));
+        }
+        if rng.chance(1, 3) {
+            cv.sample = Some(gen_specs(rng, false));
+        }
+        for _ in 0..rng.below(3) {
+            cv.params.push(gen_specs(rng, false));
+        }
+        f.cv.insert("cv01".into(), cv);
+    }
+    if rng.chance(1, 5) {
+        f.size = Some(gen_specs(rng, false));
+    }
+    if rng.chance(1, 4) {
+        let mut st = StatCfg::default();
+        st.elided = Some(match rng.below(10) {
+            0 => Elided::Id(2), // not in the FEA name table unless declared above
+            1 | 2 => {
+                // a reserved id the feature file itself declares (feaLib refuses 1-6; 8 is used by nothing else here)
+                if !f.explicit.iter().any(|(i, _)| *i == 8) {
+                    f.explicit.push((8, (3, 1, 0x409, "Regular".into())));
+                }
+                Elided::Id(8)
+            }
+            _ => Elided::Rec(gen_specs(rng, false)),
+        });
+        let variable: Vec<&AxisCfg> = axes.iter().filter(|a| !a.is_point()).collect();
+        if variable.is_empty() {
+            st.axes.push(("wght".into(), gen_specs(rng, false), vec![(400, gen_specs(rng, false))]));
+        } else {
+            for a in variable {
+                let mut vals = Vec::new();
+                for v in [a.def, a.max] {
+                    if rng.chance(1, 2) {
+                        vals.push((v, gen_specs(rng, false)));
+                    }
+                }
+                st.axes.push((a.tag.clone(), gen_specs(rng, false), vals));
+            }
+        }
+        f.stat = Some(st);
+    }
+    f
+}
+
+fn gen_cfg(rng: &mut Rng) -> Cfg {
+    let mut c = Cfg { family: pick_s(rng, FAMILIES), style: pick_s(rng, STYLES), ..Default::default() };
+    let put = |c: &mut Cfg, k: &str, v: String| c.info.push((k.to_string(), v));
+    if rng.chance(1, 3) {
+        let v = pick_s(rng, FAMILIES);
+        put(&mut c, "styleMapFamilyName", v);
+    }
+    if rng.chance(1, 3) {
+        let v = pick_s(rng, &["regular", "italic", "bold", "bold italic"]);
+        put(&mut c, "styleMapStyleName", v);
+    }
+    if rng.chance(1, 5) {
+        let v = pick_s(rng, FAMILIES);
+        put(&mut c, "openTypeNamePreferredFamilyName", v);
+    }
+    if rng.chance(1, 5) {
+        let v = pick_s(rng, STYLES);
+        put(&mut c, "openTypeNamePreferredSubfamilyName", v);
+    }
+    if rng.chance(1, 3) {
+        // (a version that is nothing but a stale ";fontc" stamp is left to the NameBuilder stream)
+        let v = pick_s(rng, &VERSIONS[..6]);
+        put(&mut c, "openTypeNameVersion", v);
+    }
+    if rng.chance(1, 6) {
+        put(&mut c, "openTypeNameUniqueID", "custom unique id".into());
+    }
+    if rng.chance(1, 6) {
+        let v = pick_s(rng, &["Custom-PS", "Fam-Regular"]);
+        put(&mut c, "postscriptFontName", v);
+    }
+    for k in ["copyright", "trademark", "openTypeNameDesigner", "openTypeNameLicense", "openTypeNameWWSFamilyName", "openTypeNameCompatibleFullName"] {
+        if rng.chance(1, 6) {
+            let v = pick_s(rng, &["Copyright 2026", "Regular", "Fam", "Some text"]);
+            put(&mut c, k, v);
+        }
+    }
+    if rng.chance(1, 2) {
+        c.version_major = Some(*rng.pick(&[0, 1, 2, 12]));
+        c.version_minor = Some(*rng.pick(&[0, 5, 50, 500, 1000]));
+    }
+    if rng.chance(1, 4) {
+        c.vendor = Some(pick_s(rng, &["ABCD", "GOOG"]));
+    }
+    if rng.chance(1, 12) {
+        c.records.push((*rng.pick(&[9u16, 25, 256, 257, 300]), pick_s(rng, &["Source record", "Weight", "Bold"])));
+    }
+    let nax = match rng.below(8) {
+        0 | 1 => 0,
+        2..=5 => 1,
+        _ => 2,
+    };
+    c.axes = gen_axes(rng, nax, nax == 2);
+    let extra = vec![c.family.clone(), c.style.clone()];
+    let nin = if nax == 0 { rng.below(2) as usize } else { rng.range(0, 4) as usize };
+    c.instances = gen_insts(rng, &c.axes, nin, &extra);
+    if rng.chance(2, 5) {
+        c.fea = Some(gen_fea(rng, &c.axes));
+    }
+    c
+}
+
+fn scenarios() -> Vec<(&'static str, Cfg, usize)> {
+    let wght = AxisCfg { name: "Weight".into(), tag: "wght".into(), label: None, min: 400, def: 400, max: 700 };
+    let base = Cfg {
+        family: "Fam".into(),
+        style: "Regular".into(),
+        axes: vec![wght],
+        instances: vec![InstCfg { style: "Regular".into(), ps: None, loc: vec![400] }, InstCfg { style: "Bold".into(), ps: Some("Fam-Bold".into()), loc: vec![700] }],
+        ..Default::default()
+    };
+    let w = |t: &str| -> Vec<Spec> { vec![(3, 1, 0x409, t.to_string())] };
+    let mut v = vec![("basic", base.clone(), 2)];
+    let mut c = base.clone();
+    c.instances[0].style = "Fam".into();
+    v.push(("default-instance-named-like-family", c, 2));
+    let mut c = base.clone();
+    c.family = "Regular".into();
+    v.push(("family-style-instance-all-regular", c, 10));
+    let mut c = base.clone();
+    c.records.push((256, "Source 256".into()));
+    v.push(("source-record-256", c, 10));
+    let mut c = base.clone();
+    c.records.push((1, "B\u{1D400}".into()));
+    c.info.push(("styleMapFamilyName".into(), "Fam".into()));
+    v.push(("source-record-1-other-encoding", c, 1));
+    let mut c = base.clone();
+    let mut f = FeaCfg::default();
+    f.size = Some(w("Text"));
+    c.fea = Some(f);
+    v.push(("size-feature-variable", c.clone(), 1));
+    c.axes.clear();
+    c.instances.clear();
+    v.push(("size-feature-static", c, 1));
+    let mut c = base.clone();
+    let mut f = FeaCfg::default();
+    f.explicit.push((8, (3, 1, 0x409, "Regular".into())));
+    f.stat = Some(StatCfg { elided: Some(Elided::Id(8)), axes: vec![("wght".into(), w("Weight"), vec![(400, w("Regular")), (700, w("Bold"))])] });
+    c.fea = Some(f.clone());
+    v.push(("stat-elided-id-8-declared-in-fea", c.clone(), 1));
+    f.explicit.clear();
+    f.stat.as_mut().unwrap().elided = Some(Elided::Id(2));
+    c.fea = Some(f);
+    v.push(("stat-elided-id-2-from-source", c, 1));
+    let mut c = base.clone();
+    let mut f = FeaCfg::default();
+    f.ss.insert("ss01".into(), w(""));
+    f.ss.insert("ss02".into(), w("Second"));
+    c.fea = Some(f);
+    v.push(("fea-empty-feature-name", c, 1));
+    let mut c = base.clone();
+    let mut f = FeaCfg::default();
+    f.ss.insert("ss01".into(), vec![(3, 1, 0x409, "Alt a".into()), (1, 0, 0, "Alt a mac".into())]);
+    f.cv.insert("cv01".into(), CvCfg { label: Some(w("CV label")), tooltip: None, sample: Some(w("a")), params: vec![w("P1"), w("P2")] });
+    f.explicit.push((9, (3, 1, 0x409, "Designer".into())));
+    f.explicit.push((300, (3, 1, 0x409, "Three hundred".into())));
+    f.stat = Some(StatCfg { elided: Some(Elided::Rec(w("Regular"))), axes: vec![("wght".into(), w("Weight"), vec![(400, w("Regular"))])] });
+    c.fea = Some(f);
+    v.push(("fea-all-kinds", c, 1));
+    v
+}
+
+fn win_string(d: &Decoded, id: u16) -> Option<String> {
+    d.names.iter().find(|n| n.0 == id && n.1 == 3 && n.3 == 0x409).map(|n| n.4.clone())
+}
+
+/// Evaluate the property on one decoded font. Returns the observation for the model.
+fn check_font(t: &mut Tally, c: &Cfg, d: &Decoded, version: &str, sj: &serde_json::Value) -> String {
+    let variable: Vec<&AxisCfg> = c.axes.iter().filter(|a| !a.is_point()).collect();
+    let fea = c.fea.clone().unwrap_or_default();
+    let has_id = |id: u16| d.names.iter().any(|n| n.0 == id);
+    let need = |t: &mut Tally, whre: &str, id: u16| {
+        if !has_id(id) {
+            viol(t, &format!("ref-missing-{whre}"), format!("{whre} refers to name id {id}, which has no record"), sj.clone());
+        } else if d.names.iter().any(|n| n.0 == id && n.4.is_empty()) {
+            viol(t, &format!("ref-empty-{whre}"), format!("{whre} refers to name id {id}, whose record is empty"), sj.clone());
+        }
+    };
+    if d.names.iter().any(|n| n.4.is_empty()) && !fea.explicit.iter().any(|(_, s)| s.3.is_empty()) {
+        viol(t, "name-empty-record", "the name table holds an empty record".into(), sj.clone());
+    }
+    // ---- fvar
+    if variable.is_empty() {
+        if !d.fvar_axes.is_empty() {
+            viol(t, "fvar-in-static-font", "fvar present without a variable axis".into(), sj.clone());
+        }
+    } else {
+        if d.fvar_axes.len() != variable.len() {
+            viol(t, "fvar-axis-count", format!("{} fvar axes for {} variable source axes", d.fvar_axes.len(), variable.len()), sj.clone());
+        }
+        for (a, (tag, id)) in variable.iter().zip(d.fvar_axes.iter()) {
+            need(t, "fvar-axis", *id);
+            if *id < 256 {
+                viol(t, "axis-id-reserved", format!("fvar axis {tag} uses reserved name id {id}"), sj.clone());
+            }
+            if has_id(*id) && win_string(d, *id).as_deref() != Some(a.ui_label().as_str()) {
+                viol(t, "axis-name-wrong", format!("fvar axis {tag}: name id {id} = {:?}, the source label is {:?}", win_string(d, *id), a.ui_label()), sj.clone());
+            }
+        }
+        if d.fvar_inst.len() != c.instances.len() {
+            viol(t, "fvar-instance-count", format!("{} fvar instances for {} source instances", d.fvar_inst.len(), c.instances.len()), sj.clone());
+        }
+        let any_ps = c.instances.iter().any(|i| i.ps.is_some());
+        for (i, (sub, ps, _coords)) in c.instances.iter().zip(d.fvar_inst.iter()) {
+            let at_default = c.axes.iter().zip(i.loc.iter()).filter(|(a, _)| !a.is_point()).all(|(a, v)| a.def == *v);
+            need(t, "fvar-instance", *sub);
+            if !(*sub >= 256 || (at_default && (*sub == 2 || *sub == 17))) {
+                viol(t, "fvar-instance-reserved-id", format!("instance {:?} (default location: {at_default}) uses subfamilyNameID {sub}; only 2 / 17 at the default instance or ids >= 256 are allowed", i.style), sj.clone());
+            }
+            if has_id(*sub) && win_string(d, *sub).as_deref() != Some(i.style.as_str()) {
+                viol(t, "instance-name-wrong", format!("instance {:?}: name id {sub} = {:?}", i.style, win_string(d, *sub)), sj.clone());
+            }
+            match (ps, &i.ps, any_ps) {
+                (None, _, false) => {}
+                // read-fonts reports postScriptNameID 0xFFFF ("none") as None
+                (None, None, true) | (Some(0xFFFF), None, true) => {}
+                (Some(id), Some(p), true) => {
+                    need(t, "fvar-psname", *id);
+                    if !(*id >= 256 || (at_default && *id == 6)) {
+                        viol(t, "fvar-psname-reserved-id", format!("instance {:?} uses postScriptNameID {id}", i.style), sj.clone());
+                    }
+                    if has_id(*id) && win_string(d, *id).as_deref() != Some(p.as_str()) {
+                        viol(t, "instance-psname-wrong", format!("instance {:?}: name id {id} = {:?}, the source says {:?}", i.style, win_string(d, *id), p), sj.clone());
+                    }
+                }
+                other => viol(t, "fvar-psname-presence", format!("instance {:?}: postScriptNameID {:?}", i.style, other.0), sj.clone()),
+            }
+        }
+    }
+    // ---- STAT
+    let mut o_adj: Vec<u16> = Vec::new();
+    let mut o_elided: Option<u16> = None;
+    let mut groups: Vec<(String, Vec<Spec>, u16)> = Vec::new(); // (kind, specs, id the font uses)
+    if let Some(st) = &fea.stat {
+        if !d.has_stat {
+            viol(t, "stat-missing", "the FEA declares a STAT table, the font has none".into(), sj.clone());
+        } else {
+            o_elided = d.stat_elided;
+            match (&st.elided, d.stat_elided) {
+                (Some(Elided::Id(want)), Some(got)) => {
+                    if *want == got {
+                        need(t, "stat-elided", got);
+                    }
+                    if *want != got {
+                        viol(t, "stat-elided-id-shifted", format!("ElidedFallbackNameID {want} in the source, elidedFallbackNameID {got} = {:?} in the font", win_string(d, got)), sj.clone());
+                    }
+                }
+                (Some(Elided::Rec(specs)), Some(got)) => groups.push(("stat-elided".into(), specs.clone(), got)),
+                _ => {}
+            }
+            for (k, (tag, names, values)) in st.axes.iter().enumerate() {
+                if let Some((dtag, id)) = d.stat_axes.get(k) {
+                    if dtag != tag {
+                        viol(t, "stat-axis-order", format!("STAT axis {k} is {dtag}, the source says {tag}"), sj.clone());
+                    }
+                    o_adj.push(*id);
+                    groups.push(("stat-axis".into(), names.clone(), *id));
+                    if *id < 256 {
+                        viol(t, "axis-id-reserved", format!("STAT axis {tag} uses reserved name id {id}"), sj.clone());
+                    }
+                } else {
+                    viol(t, "stat-axis-count", format!("STAT has {} axes", d.stat_axes.len()), sj.clone());
+                }
+                let vals: Vec<u16> = d.stat_values.iter().filter(|(ix, _)| *ix as usize == k).map(|(_, id)| *id).collect();
+                if vals.len() != values.len() {
+                    viol(t, "stat-value-count", format!("{} axis values for axis {tag}, the source has {}", vals.len(), values.len()), sj.clone());
+                }
+                for ((_, vn), id) in values.iter().zip(vals.iter()) {
+                    o_adj.push(*id);
+                    groups.push(("stat-value".into(), vn.clone(), *id));
+                }
+            }
+        }
+    } else if !variable.is_empty() {
+        if !d.has_stat {
+            viol(t, "stat-missing", "variable font without STAT".into(), sj.clone());
+        }
+        for (a, (tag, id)) in variable.iter().zip(d.stat_axes.iter()) {
+            need(t, "stat-axis", *id);
+            if *id < 256 {
+                viol(t, "axis-id-reserved", format!("STAT axis {tag} uses reserved name id {id}"), sj.clone());
+            }
+            if has_id(*id) && win_string(d, *id).as_deref() != Some(a.ui_label().as_str()) {
+                viol(t, "axis-name-wrong", format!("STAT axis {tag}: name id {id} = {:?}, the source label is {:?}", win_string(d, *id), a.ui_label()), sj.clone());
+            }
+        }
+        if let Some(e) = d.stat_elided {
+            need(t, "stat-elided", e);
+        }
+    }
+    // ---- feature parameters
+    let mut o_size: Vec<u16> = Vec::new();
+    if let Some(specs) = &fea.size {
+        match d.feat.iter().find(|f| f.1 == "size") {
+            Some(f) => {
+                o_size.push(f.2[0]);
+                groups.push(("size".into(), specs.clone(), f.2[0]));
+            }
+            None => viol(t, "feature-params-missing", "size feature has no parameters".into(), sj.clone()),
+        }
+    }
+    for (tag, specs) in &fea.ss {
+        match d.feat.iter().find(|f| f.0 == *tag && f.1 == "ss") {
+            Some(f) => {
+                o_adj.push(f.2[0]);
+                groups.push(("ss".into(), specs.clone(), f.2[0]));
+            }
+            None => viol(t, "feature-params-missing", format!("{tag} has no feature parameters"), sj.clone()),
+        }
+    }
+    for (tag, cv) in &fea.cv {
+        match d.feat.iter().find(|f| f.0 == *tag && f.1 == "cv") {
+            Some(f) => {
+                for (slot, g) in [&cv.label, &cv.tooltip, &cv.sample].into_iter().enumerate() {
+                    if let Some(specs) = g {
+                        o_adj.push(f.2[slot]);
+                        groups.push(("cv".into(), specs.clone(), f.2[slot]));
+                    } else if f.2[slot] != 0 && f.2[slot] != 0xFFFF {
+                        viol(t, "cv-unset-name-has-id", format!("{tag}: a name the source does not give has id {}", f.2[slot]), sj.clone());
+                    }
+                }
+                if f.2[4] as usize != cv.params.len() {
+                    viol(t, "cv-param-count", format!("{tag}: {} named parameters, the source has {}", f.2[4], cv.params.len()), sj.clone());
+                }
+                for (k, specs) in cv.params.iter().enumerate() {
+                    let id = f.2[3].wrapping_add(k as u16);
+                    o_adj.push(id);
+                    groups.push(("cv".into(), specs.clone(), id));
+                }
+            }
+            None => viol(t, "feature-params-missing", format!("{tag} has no feature parameters"), sj.clone()),
+        }
+    }
+    // every FEA name group: id has records, they are the source's strings, ids are not shared
+    for (k, (kind, specs, id)) in groups.iter().enumerate() {
+        let wanted: Vec<&Spec> = specs.iter().filter(|s| !s.3.is_empty() && !(s.0 == 1 && s.1 != 0)).collect();
+        if !wanted.is_empty() && kind != "size" {
+            need(t, kind, *id);
+        }
+        for s in wanted {
+            if !d.names.iter().any(|n| n.0 == *id && n.1 == s.0 && n.2 == s.1 && n.3 == s.2 && n.4 == s.3) {
+                let got: Vec<_> = d.names.iter().filter(|n| n.0 == *id).collect();
+                viol(t, &format!("fea-{kind}-name-wrong"), format!("{kind} uses name id {id}; the source says {:?}, the records under that id are {:?}", s, got), sj.clone());
+            }
+        }
+        if *id >= 256 && *id != 0xFFFF && groups.iter().skip(k + 1).any(|g| g.2 == *id) {
+            viol(t, "fea-name-id-shared", format!("two name groups of the feature file use the same name id {id}"), sj.clone());
+        }
+        if *id < 256 && kind != "size" {
+            viol(t, "fea-name-id-reserved", format!("{kind} uses reserved name id {id}"), sj.clone());
+        }
+    }
+    // explicit FEA name records are in the table (ids >= 256 may move, reserved ones not)
+    for (id, s) in &fea.explicit {
+        if *id < 256 && !s.3.is_empty() && !d.names.iter().any(|n| n.0 == *id && n.1 == s.0 && n.3 == s.2 && n.4 == s.3) && *id != 5 {
+            viol(t, "fea-explicit-name-lost", format!("FEA nameid {id} {:?} is not in the name table", s.3), sj.clone());
+        }
+    }
+    // source records with ids above 255 survive
+    for (id, s) in &c.records {
+        if *id > 255 && win_string(d, *id).as_deref() != Some(s.as_str()) && !fea.explicit.iter().any(|(i, _)| i == id) {
+            viol(t, "source-name-id-collision", format!("openTypeNameRecords gives name id {id} = {:?}; the font has {:?}", s, win_string(d, *id)), sj.clone());
+        }
+    }
+    // ---- family / style / version fields (direct, coarse; the exact table is the model's)
+    let supplied = |k: &str| c.info.iter().find(|(kk, _)| kk == k).map(|(_, v)| v.clone());
+    let overridden = |id: u16| fea.explicit.iter().any(|(i, _)| *i == id) || c.records.iter().any(|(i, _)| *i == id);
+    for id in [1u16, 2, 3, 4, 5] {
+        let blank = id == 5 && supplied("openTypeNameVersion").as_deref() == Some("");
+        if !blank && win_string(d, id).map_or(true, |s| s.is_empty()) {
+            viol(t, "name-mandatory-missing", format!("name id {id} is missing or empty"), sj.clone());
+        }
+    }
+    let mut seen_keys = BTreeSet::new();
+    for n in &d.names {
+        if !seen_keys.insert((n.0, n.1, n.3)) {
+            viol(t, "namebuilder-stale-record", format!("two records for name id {} on platform {} language {} (different encodings)", n.0, n.1, n.3), sj.clone());
+        }
+    }
+    if supplied("styleMapStyleName").is_none() && !overridden(2) {
+        if let Some(s) = win_string(d, 2) {
+            if !is_ribbi(&s) {
+                viol(t, "legacy-subfamily-not-ribbi", format!("name id 2 = {:?}", s), sj.clone());
+            }
+        }
+    }
+    if let (Some(f), false) = (supplied("styleMapFamilyName"), overridden(1)) {
+        if win_string(d, 1).as_deref() != Some(f.as_str()) {
+            viol(t, "family-name-wrong", format!("styleMapFamilyName {:?}, name id 1 = {:?}", f, win_string(d, 1)), sj.clone());
+        }
+    }
+    if !overridden(5) {
+        if let Some(v5) = win_string(d, 5) {
+            let stamp = format!(";fontc {version}");
+            let base = supplied("openTypeNameVersion").unwrap_or_else(|| format!("Version {}.{:0>3}", c.version_major.unwrap_or(0), c.version_minor.unwrap_or(0)));
+            let base = match base.find(";fontc ") {
+                Some(i) => base[..i].to_string(),
+                None => base,
+            };
+            if v5 != format!("{base}{stamp}") {
+                viol(t, "version-string-wrong", format!("name id 5 = {:?}, expected {:?} + {:?}", v5, base, stamp), sj.clone());
+            }
+        }
+    }
+    // ---- observation for the model
+    let stat_axes = if fea.stat.is_some() || variable.is_empty() { "None".to_string() } else { format!("(Some {})", c_nlist(&d.stat_axes.iter().map(|a| a.1).collect::<Vec<_>>())) };
+    format!(
+        "{{| o_names := {}; o_fvar_axes := {}; o_fvar_inst := {}; o_stat_axes := {}; o_adj := {}; o_size := {}; o_elided := {} |}}",
+        c_frecs(&d.names),
+        c_nlist(&d.fvar_axes.iter().map(|a| a.1).collect::<Vec<_>>()),
+        coq_list(&d.fvar_inst, |(s, p, _)| {
+            // read-fonts reports 0xFFFF as None: undo that when the instance records carry the field
+            let p = if c.instances.iter().any(|i| i.ps.is_some()) { p.or(Some(0xFFFF)) } else { *p };
+            format!("({}, {})", coq_n(*s as u64), coq_opt(&p, |x| coq_n(*x as u64)))
+        }),
+        stat_axes,
+        c_nlist(&o_adj),
+        c_nlist(&o_size),
+        coq_opt(&o_elided, |x| coq_n(*x as u64))
+    )
+}
+
+fn run_font(t: &mut Tally, id: &mut usize, label: &str, c: &Cfg, reps: usize, version: &str) {
+    let sj = cfg_json(c);
+    let variable = c.axes.iter().any(|a| !a.is_point());
+    let fea = c.fea.clone().unwrap_or_default();
+    let mut outcomes: BTreeMap<String, (Option<Decoded>, usize)> = BTreeMap::new();
+    for _ in 0..reps {
+        t.font_builds += 1;
+        let (key, dec) = match compile_cfg(c) {
+            Outcome::Font(b) => match decode(&b) {
+                Ok(d) => (format!("F{:?}", d), Some(d)),
+                Err(e) => (format!("D{e}"), None),
+            },
+            Outcome::Error(e) => (format!("E{e}"), None),
+            Outcome::Panic(e) => (format!("P{e}"), None),
+        };
+        outcomes.entry(key).or_insert((dec, 0)).1 += 1;
+    }
+    t.fonts_compiled += 1;
+    *t.by_kind.entry(format!("font:{}{}", if variable { "variable" } else { "static" }, if c.fea.is_some() { "+fea" } else { "" })).or_insert(0) += 1;
+    if outcomes.len() > 1 {
+        let fonts: Vec<&Decoded> = outcomes.values().filter_map(|o| o.0.as_ref()).collect();
+        let counts: Vec<usize> = outcomes.values().map(|o| o.1).collect();
+        let high = c.records.iter().any(|(i, _)| *i > 255);
+        let key = if high { "source-name-id-collision" } else { "name-alloc-hash-order" };
+        let what = if fonts.len() > 1 {
+            format!("names {:?} vs {:?}", fonts[0].names.iter().filter(|n| n.0 > 255).collect::<Vec<_>>(), fonts[1].names.iter().filter(|n| n.0 > 255).collect::<Vec<_>>())
+        } else {
+            format!("outcomes {:?}", outcomes.keys().map(|k| k.chars().take(80).collect::<String>()).collect::<Vec<_>>())
+        };
+        viol(t, key, format!("[{label}] {reps} builds of one source gave {} different results ({:?}): {what}", outcomes.len(), counts), sj.clone());
+    }
+    let adds = ufo_adds(c);
+    let prog = c.fea.as_ref().map(fea_prog).unwrap_or_default();
+    let c_adds = coq_list(&adds, |(i, s)| format!("({}, {})", coq_n(*i as u64), cs(s)));
+    for (key, (dec, _)) in &outcomes {
+        let Some(d) = dec else {
+            // errors and panics
+            let msg: String = key.chars().skip(1).take(300).collect();
+            let elided_unknown = matches!(fea.stat.as_ref().and_then(|s| s.elided.clone()), Some(Elided::Id(i)) if !fea.explicit.iter().any(|(e, _)| *e == i));
+            let high = variable && c.records.iter().any(|(i, _)| *i > 255);
+            let vkey = if msg.contains("ElidedFallbackNameID") && elided_unknown {
+                "fea-stat-elided-id-panic"
+            } else if high && msg.contains("panicked") {
+                "source-name-id-collision"
+            } else if key.starts_with('P') || msg.contains("panicked") {
+                "compile-panic"
+            } else if key.starts_with('D') {
+                "font-undecodable"
+            } else {
+                "compile-error"
+            };
+            viol(t, vkey, format!("[{label}] {msg}"), sj.clone());
+            if vkey == "fea-stat-elided-id-panic" {
+                // the model's allocation has no result either
+                let coq = format!("match fea_alloc (fnb_empty, refs_empty) {} with None => true | Some _ => false end", c_prog(&prog));
+                emit_case(*id, "font-fea-panic", coq, None, true, format!("fp:{label}:{}", fea_text(&fea)), json!({"src": sj, "impl": msg}));
+                *id += 1;
+            }
+            continue;
+        };
+        let obs = check_font(t, c, d, version, &sj);
+        // iteration orders the model has to try
+        let default_names: Vec<&String> = c.instances.iter().filter(|i| c.axes.iter().zip(i.loc.iter()).filter(|(a, _)| !a.is_point()).all(|(a, v)| a.def == *v)).map(|i| &i.style).collect();
+        let rot = variable && default_names.iter().any(|n| d.names.iter().filter(|r| r.0 < 256 && r.1 == 3 && &&r.4 == n).count() > 1);
+        let high = c.records.iter().any(|(i, _)| *i > 255);
+        let rsize = c.axes.len() + c.instances.iter().map(|i| 1 + i.ps.is_some() as usize).sum::<usize>() + c.records.len();
+        let coq = if high && variable && rsize > 6 {
+            String::new()
+        } else {
+            format!(
+                "font_agrees {} {} {} {} {} {} {} {} {} (Some {}) {}",
+                coq_bool(rot),
+                coq_bool(high && variable),
+                c_adds,
+                coq_z(c.version_major.unwrap_or(0)),
+                coq_n(c.version_minor.unwrap_or(0) as u64),
+                cs(c.vendor.as_deref().unwrap_or("NONE")),
+                c_axes(&c.axes),
+                c_insts(&c.instances),
+                c_prog(&prog),
+                cs(version),
+                obs
+            )
+        };
+        let show = format!("nb_run {} {} {} {}", c_adds, coq_z(c.version_major.unwrap_or(0)), coq_n(c.version_minor.unwrap_or(0) as u64), cs(c.vendor.as_deref().unwrap_or("NONE")));
+        emit_case(*id, "font", coq, Some(show), true, format!("f:{label}:{:?}", d.names), json!({"src": sj, "label": label, "impl_names": d.names, "impl_fvar": d.fvar_inst, "impl_feat": d.feat}));
+        *id += 1;
+    }
+}
+
+fn stream_fonts(rng: &mut Rng, n: usize, id: &mut usize, t: &mut Tally) {
+    let version = fontc::version();
+    for (label, c, reps) in scenarios() {
+        run_font(t, id, label, &c, reps, &version);
+    }
+    for k in 0..n {
+        let c = gen_cfg(rng);
+        // a second build for every fourth source, more when strings coincide
+        let coincide = c.instances.iter().any(|i| i.style == c.family || i.style == c.style || is_ribbi(&i.style)) && !c.axes.is_empty();
+        let reps = if coincide { 3 } else if k % 4 == 0 { 2 } else { 1 };
+        run_font(t, id, &format!("gen{k}"), &c, reps, &version);
+    }
 }
 
 fn main() {
     quiet_panics();
-    let _ = (json!({}), BTreeMap::<u8, u8>::new());
-    let wght = AxisCfg { name: "Weight".into(), tag: "wght".into(), label: None, min: 400.0, def: 400.0, max: 700.0 };
-    let base = Cfg {
-        family: "Fam".into(),
-        style: "Regular".into(),
-        axes: vec![wght.clone()],
-        instances: vec![InstCfg { style: "Regular".into(), ps: None, loc: vec![400.0] }, InstCfg { style: "Bold".into(), ps: Some("Fam-Bold".into()), loc: vec![700.0] }],
-        ..Default::default()
-    };
-    show(&base, "basic", 1);
-    let mut c = base.clone();
-    c.instances[0].style = "Fam".into();
-    show(&c, "default instance named like the family", 4);
-    let mut c = base.clone();
-    c.family = "Regular".into();
-    show(&c, "all Regular", 12);
-    let mut c = base.clone();
-    c.fontinfo.push(("openTypeNameRecords".into(), "<array><dict><key>nameID</key><integer>256</integer><key>platformID</key><integer>3</integer><key>encodingID</key><integer>1</integer><key>languageID</key><integer>1033</integer><key>string</key><string>Source 256</string></dict></array>".into()));
-    show(&c, "source name record 256", 12);
-    let common = "feature ss01 { featureNames { name \"Alt a\"; name 1 \"Alt a mac\"; }; sub a by a.alt; } ss01;\nfeature cv01 { cvParameters { FeatUILabelNameID { name \"CV label\"; }; ParamUILabelNameID { name \"P1\"; }; ParamUILabelNameID { name \"P2\"; }; Character 0x61; }; sub a by a.alt; } cv01;\n";
-    let mut c = base.clone();
-    c.fea = Some(format!("{common}table STAT {{ ElidedFallbackName {{ name \"Regular\"; }}; DesignAxis wght 0 {{ name \"Weight\"; }}; AxisValue {{ location wght 400; name \"Regular\"; flag ElidableAxisValueName; }}; AxisValue {{ location wght 700; name \"Bold\"; }}; }} STAT;\ntable name {{ nameid 9 \"Designer\"; nameid 300 \"Three hundred\"; }} name;\n"));
-    show(&c, "fea names + STAT elided name", 2);
-    let mut c = base.clone();
-    c.fea = Some(format!("{common}table name {{ nameid 2 \"Regular\"; nameid 9 \"Designer\"; }} name;\ntable STAT {{ ElidedFallbackNameID 2; DesignAxis wght 0 {{ name \"Weight\"; }}; }} STAT;\n"));
-    show(&c, "fea names + STAT elided id 2 + name 2 in fea", 2);
-    let mut c = base.clone();
-    c.fea = Some("feature size { parameters 10.0 3 80 139; sizemenuname \"Win Text\"; sizemenuname 1 \"Mac Text\"; } size;\n".to_string());
-    show(&c, "size feature", 1);
-    let mut c = base.clone();
-    c.fea = Some("feature ss01 { featureNames { name \"\"; }; sub a by a.alt; } ss01;\nfeature ss02 { featureNames { name \"Second\"; }; sub a by a.alt; } ss02;\n".into());
-    show(&c, "fea empty name", 2);
-    let mut c = base.clone();
-    c.axes.clear();
-    c.instances.clear();
-    c.fea = Some("feature ss01 { featureNames { name \"Alt a\"; }; sub a by a.alt; } ss01;\ntable STAT { ElidedFallbackNameID 2; DesignAxis wght 0 { name \"Weight\"; }; } STAT;".into());
-    show(&c, "static + fea", 2);
+    let args: Vec<String> = std::env::args().collect();
+    let args = &args[1..];
+    let seed = arg_val(args, "--seed", 1);
+    let n = arg_val(args, "--n", 300) as usize;
+    let nfonts = arg_val(args, "--fonts", 60) as usize;
+    let mut rng = Rng::new(seed);
+    let mut id = 0usize;
+    let mut t = Tally { by_kind: BTreeMap::new(), viol: BTreeMap::new(), fonts_compiled: 0, font_builds: 0 };
+    stream_namebuilder(&mut rng, n, &mut id, &mut t);
+    stream_alloc(&mut rng, n, &mut id, &mut t);
+    stream_fonts(&mut rng, nfonts, &mut id, &mut t);
+    emit_stat(json!({"inputs": t.by_kind, "violations_by_key": t.viol, "fonts_compiled": t.fonts_compiled, "font_builds": t.font_builds,
+        "extra_evaluations": t.font_builds - t.fonts_compiled}));
 }
